@@ -8,7 +8,7 @@ from .. import sym
 from ..cfg import target_names
 from ..model import AnalysisError, Cls, Func, Repo, is_self_attr, short, walk_no_nested
 from ..report import RuleResult
-from .common import exported_estimators, norm, parents_map, enclosing_stmt, single_defs
+from .common import ancestors, exported_estimators, norm, parents_map, enclosing_stmt, single_defs
 
 COO_FILE = "vectorizers/coo_utils.py"
 BASE_FILE = "vectorizers/base_cooccurrence_vectorizer.py"
@@ -175,16 +175,82 @@ def r4_2(repo: Repo) -> RuleResult:
     return rr
 
 
+def _callers_not_regenerating(repo: Repo, build: Func, attr: str, seq_param: str, comp: ast.AST) -> Optional[List[str]]:
+    """Callers of `build` that do not assign self.<attr> = self._generate_chunk_boundaries(<the sequences they pass>)
+    before the call (on every path, or under the very test that guards the comprehension using it)."""
+    from ..cfg import CFG
+
+    pm_b = parents_map(build.node)
+    comp_guards = {norm(a.test) for a in ancestors(comp, pm_b) if isinstance(a, ast.If)}
+    callers = []
+    for f in repo.all_funcs():
+        for c in repo.calls_in(f):
+            if is_self_attr(c.func, build.name):
+                callers.append((f, c))
+    if not callers:
+        return None
+    lacking = []
+    for f, call in callers:
+        bound = repo.bind_args(build, call)
+        passed = bound.get(seq_param)
+        g = CFG(f.node)
+        pm = parents_map(f.node)
+        target = g.node_for(enclosing_stmt(call, pm))
+        good_nodes = []
+        for n in g.nodes:
+            if n.kind == "stmt" and isinstance(n.ast, ast.Assign) and any(is_self_attr(t, attr) for t in n.ast.targets):
+                v = n.ast.value
+                if isinstance(v, ast.Call) and is_self_attr(v.func, "_generate_chunk_boundaries") and v.args and passed is not None \
+                        and norm(v.args[0]) == norm(passed):
+                    guards = {norm(a.test) for a in ancestors(n.ast, pm) if isinstance(a, ast.If)}
+                    if not guards or guards <= comp_guards:
+                        good_nodes.append((n.id, guards))
+        ok = False
+        uncond = [i for i, gs in good_nodes if not gs]
+        if uncond and g.must_pass(uncond, target):
+            ok = True
+        elif good_nodes:
+            # conditional regeneration under the comprehension's own guard: the statement must precede the call
+            ok = all(g.nodes[i].ast.lineno < call.lineno for i, _ in good_nodes)
+        if not ok:
+            lacking.append(f.qualname)
+    return sorted(set(lacking))
+
+
 def r4_3(repo: Repo) -> RuleResult:
     rr = RuleResult("R4.3", "document chunks are exactly the generated boundaries and the boundaries partition [0, len(data))", floor=4)
     f = repo.func(BASE_FILE, "BaseCooccurrenceVectorizer._build_token_cooccurrence_matrix")
     n_sites = 0
+    from .common import expand_locals
+
     for comp in [n for n in walk_no_nested(f.node) if isinstance(n, ast.ListComp)]:
         g = comp.generators[0]
-        if not (isinstance(g.iter, ast.Call) and is_self_attr(g.iter.func, "_generate_chunk_boundaries")):
+        # a chunk comprehension hands a slice of one of the function's sequence parameters to a worker
+        sliced = [s_ for s_ in ast.walk(comp.elt) if isinstance(s_, ast.Subscript) and isinstance(s_.slice, ast.Slice)
+                  and isinstance(s_.value, ast.Name) and s_.value.id in f.params]
+        if not sliced:
             continue
         n_sites += 1
-        seq = norm(g.iter.args[0]) if g.iter.args else None
+        it = expand_locals(g.iter, f, 3)
+        if is_self_attr(it):
+            # boundaries kept in an attribute: fine if every caller regenerates them from the sequences it passes on
+            lacking = _callers_not_regenerating(repo, f, it.attr, sliced[0].value.id, comp)
+            construct = "chunk comprehension -> %s" % short(comp.elt.func if isinstance(comp.elt, ast.Call) else comp.elt, 50)
+            if lacking is None:
+                raise AnalysisError("R4.3: callers of %s not recognised" % f.qualname)
+            if not lacking:
+                rr.ok(f, construct, "boundaries stored in self.%s are regenerated by every caller from the sequences it passes" % it.attr, comp.lineno)
+            else:
+                rr.bad(f, construct,
+                       "the chunk boundaries are read from self.%s, which %s does not regenerate from the sequences it passes to %s: "
+                       "boundaries computed for another corpus (the training data) drop or misassign documents when transform is given "
+                       "more or fewer of them" % (it.attr, ", ".join(lacking), f.name), comp.lineno)
+            continue
+        if not (isinstance(it, ast.Call) and is_self_attr(it.func, "_generate_chunk_boundaries")):
+            rr.bad(f, "chunk comprehension -> %s" % short(comp.elt.func if isinstance(comp.elt, ast.Call) else comp.elt, 50),
+                   "the chunk boundaries are `%s`, not generated from `%s`, the sequences being sliced" % (norm(g.iter), norm(sliced[0].value)), comp.lineno)
+            continue
+        seq = norm(it.args[0]) if it.args else None
         tgt = [norm(x) for x in g.target.elts] if isinstance(g.target, ast.Tuple) else []
         slices = [s for s in ast.walk(comp.elt) if isinstance(s, ast.Subscript) and isinstance(s.slice, ast.Slice)]
         construct = "chunk comprehension -> %s" % short(comp.elt.func if isinstance(comp.elt, ast.Call) else comp.elt, 50)
@@ -259,9 +325,27 @@ def r4_3(repo: Repo) -> RuleResult:
 
 
 # --------------------------------------------------------------------------- R4.4 typestate
+def _strip(tok: str) -> str:
+    return tok.split("@", 1)[0]
+
+
+def _has(written: Set[str], attr: str, conds) -> bool:
+    """attr is definitely written, or written under a condition that is among the active ones."""
+    return attr in written or any("%s@%s" % (attr, c) in written for c in conds)
+
+
+def _satisfied(need: str, written: Set[str], conds=()) -> bool:
+    """A (possibly conditional) need `A@c1|c2` is met by an unconditional write of A or by a write of A under one of
+    its own conditions / the conditions active at the point of use."""
+    attr = _strip(need)
+    own = need.split("@", 1)[1].split("|") if "@" in need else []
+    return _has(written, attr, list(own) + list(conds))
+
+
 class _AttrFlow:
-    """Order-sensitive summary of a method: attributes it needs (reads before it has
-    definitely written them) and attributes it definitely writes."""
+    """Order-sensitive summary of a method: attributes it needs (reads before it has definitely written them) and
+    attributes it definitely writes.  Writes and needs under a plain `if T:` are remembered with their condition
+    (`attr@T`), so an attribute initialised under `if T` and used under the same `if T` is not reported."""
 
     def __init__(self, repo: Repo, c: Cls):
         self.repo = repo
@@ -276,12 +360,15 @@ class _AttrFlow:
             return set(), set()
         self.stack.append(f)
         needs: Set[str] = set()
-        written = self._block(f, f.node.body, set(), needs)
+        written = self._block(f, f.node.body, set(), needs, ())
         self.stack.pop()
         self.cache[f] = (needs, written)
         return needs, written
 
-    def _expr(self, f: Func, e: ast.AST, written: Set[str], needs: Set[str]) -> Set[str]:
+    def _need(self, needs: Set[str], attr: str, conds) -> None:
+        needs.add(attr if not conds else "%s@%s" % (attr, "|".join(conds)))
+
+    def _expr(self, f: Func, e: ast.AST, written: Set[str], needs: Set[str], conds=()) -> Set[str]:
         """Process reads and self-method calls inside an expression, in source order."""
         new_writes: Set[str] = set()
         nodes = [n for n in walk_no_nested(e)]
@@ -297,24 +384,28 @@ class _AttrFlow:
                     tgt = self.repo.resolve_method(self.c, fn.attr)
                 if tgt is not None:
                     nd, wr = self.summary(tgt)
-                    needs |= nd - written - new_writes
+                    for need in nd:
+                        if not _satisfied(need, written | new_writes, conds):
+                            own = need.split("@", 1)[1].split("|") if "@" in need else []
+                            self._need(needs, _strip(need), tuple(conds) + tuple(own))
                     new_writes |= wr
             elif is_self_attr(n) and isinstance(n.ctx, ast.Load):
                 if id(n) in call_funcs and self.repo.resolve_method(self.c, n.attr) is not None:
                     continue
                 if self.repo.resolve_method(self.c, n.attr) is not None:
                     continue  # bound method reference
-                if n.attr not in written and n.attr not in new_writes:
-                    needs.add(n.attr)
+                if not _has(written | new_writes, n.attr, conds):
+                    self._need(needs, n.attr, conds)
         return new_writes
 
-    def _block(self, f: Func, stmts, written: Set[str], needs: Set[str]) -> Set[str]:
+    def _block(self, f: Func, stmts, written: Set[str], needs: Set[str], conds=()) -> Set[str]:
         written = set(written)
         for s in stmts:
             if isinstance(s, ast.If):
-                written |= self._expr(f, s.test, written, needs)
-                a = self._block(f, s.body, written, needs)
-                b = self._block(f, s.orelse, written, needs)
+                written |= self._expr(f, s.test, written, needs, conds)
+                t = norm(s.test)
+                a = self._block(f, s.body, written, needs, tuple(conds) + (t,))
+                b = self._block(f, s.orelse, written, needs, tuple(conds) + ("not " + t,))
                 # a branch that always raises/returns does not constrain the join
                 a_term = bool(s.body) and isinstance(s.body[-1], (ast.Raise, ast.Return))
                 b_term = bool(s.orelse) and isinstance(s.orelse[-1], (ast.Raise, ast.Return))
@@ -323,22 +414,24 @@ class _AttrFlow:
                 elif b_term and not a_term:
                     written = a
                 else:
-                    written = a & b
+                    both = a & b
+                    cond_w = {"%s@%s" % (x, t) for x in a - both if "@" not in x} | {"%s@not %s" % (x, t) for x in b - both if "@" not in x}
+                    written = both | cond_w
             elif isinstance(s, (ast.For, ast.While)):
                 hdr = s.iter if isinstance(s, ast.For) else s.test
-                written |= self._expr(f, hdr, written, needs)
-                self._block(f, s.body, written, needs)  # zero-trip: writes not definite
-                self._block(f, s.orelse, written, needs)
+                written |= self._expr(f, hdr, written, needs, conds)
+                self._block(f, s.body, written, needs, conds)  # zero-trip: writes not definite
+                self._block(f, s.orelse, written, needs, conds)
             elif isinstance(s, ast.Try):
-                w = self._block(f, s.body, written, needs)
+                w = self._block(f, s.body, written, needs, conds)
                 for h in s.handlers:
-                    self._block(f, h.body, written, needs)
-                self._block(f, s.orelse, w, needs)
-                written |= self._block(f, s.finalbody, written, needs) - written
+                    self._block(f, h.body, written, needs, conds)
+                self._block(f, s.orelse, w, needs, conds)
+                written |= self._block(f, s.finalbody, written, needs, conds) - written
             elif isinstance(s, ast.With):
                 for it in s.items:
-                    written |= self._expr(f, it.context_expr, written, needs)
-                written = self._block(f, s.body, written, needs)
+                    written |= self._expr(f, it.context_expr, written, needs, conds)
+                written = self._block(f, s.body, written, needs, conds)
             elif isinstance(s, (ast.FunctionDef, ast.ClassDef)):
                 continue
             else:
@@ -348,21 +441,21 @@ class _AttrFlow:
                     targets, value = s.targets, s.value
                 elif isinstance(s, ast.AugAssign):
                     targets, value = [s.target], s.value
-                    if is_self_attr(s.target) and s.target.attr not in written:
-                        needs.add(s.target.attr)
+                    if is_self_attr(s.target) and not _has(written, s.target.attr, conds):
+                        self._need(needs, s.target.attr, conds)
                 elif isinstance(s, ast.AnnAssign):
                     targets, value = [s.target], s.value
                 if value is not None:
-                    written |= self._expr(f, value, written, needs)
-                    for t in targets:
-                        for e in (t.elts if isinstance(t, (ast.Tuple, ast.List)) else [t]):
+                    written |= self._expr(f, value, written, needs, conds)
+                    for t_ in targets:
+                        for e in (t_.elts if isinstance(t_, (ast.Tuple, ast.List)) else [t_]):
                             if is_self_attr(e):
                                 written.add(e.attr)
                             else:
                                 # self.x[...] = v / self.x.y = v read self.x
-                                written |= self._expr(f, e, written, needs)
+                                written |= self._expr(f, e, written, needs, conds)
                 else:
-                    written |= self._expr(f, s, written, needs)
+                    written |= self._expr(f, s, written, needs, conds)
         return written
 
 
@@ -386,7 +479,7 @@ def r4_4(repo: Repo) -> RuleResult:
         for entry in ("fit", "fit_transform"):
             m = repo.resolve_method(c, entry)
             needs, writes = flow.summary(m)
-            missing = sorted(a for a in needs - init_w if a.startswith("_") or a.endswith("_"))
+            missing = sorted({_strip(a) for a in needs if not _satisfied(a, init_w) and (_strip(a).startswith("_") or _strip(a).endswith("_"))})
             construct = "%s.%s" % (c.name, entry)
             if missing:
                 rr.add(m.file, construct, "helper order", "violation",
@@ -399,7 +492,7 @@ def r4_4(repo: Repo) -> RuleResult:
             fitted |= writes
         tr = repo.resolve_method(c, "transform")
         needs, _ = flow.summary(tr)
-        missing = sorted(a for a in needs - init_w - fitted if a.startswith("_") or a.endswith("_"))
+        missing = sorted({_strip(a) for a in needs if not _satisfied(a, init_w | fitted) and (_strip(a).startswith("_") or _strip(a).endswith("_"))})
         if missing:
             rr.add(tr.file, "%s.transform" % c.name, "fitted state", "violation",
                    "transform reads %s which neither __init__ nor fit writes" % missing, tr.node.lineno)
